@@ -56,6 +56,15 @@ Proof. exact multi_first. Qed.
 Theorem C17_multi_miss : forall stack i, Forall (fun s => s i = None) stack -> multi_get stack i = None.
 Proof. exact multi_miss. Qed.
 
+(* ---- the same for json.Authenticator as TRANSLATED from the Python source on every run (harness/pytrans4.py ->
+   StoreGen.v; StoreGenEq.v proves the translated load / get_authkey equal to the model).  No axioms. *)
+From HP Require Import PyStore StoreGen StoreGenEq.
+Theorem C17_src_json_lookup_is_model : forall db i, check_all db = true -> Authenticator_get_authkey i db = SOk (json_get db i) db.
+Proof. exact get_authkey_src_eq. Qed.
+Theorem C17_src_json_lookup_after_reloads : forall ps i,
+  Authenticator_get_authkey i (loads_src ps []) = SOk (json_get (fold_left load ps []) i) (fold_left load ps []).
+Proof. exact src_lookup_after_loads. Qed.
+
 Print Assumptions C17_mem_hit.
 Print Assumptions C17_mem_miss.
 Print Assumptions C17_mem_exact.
@@ -71,3 +80,5 @@ Print Assumptions C17_env_never_empty_channel.
 Print Assumptions C17_env_case_insensitive.
 Print Assumptions C17_multi_first.
 Print Assumptions C17_multi_miss.
+Print Assumptions C17_src_json_lookup_is_model.
+Print Assumptions C17_src_json_lookup_after_reloads.
